@@ -21,7 +21,7 @@ MODEL = "run"
 EQB = "Z.eqb"
 SHARD = 300
 RULE = ("CID in {valid, rejected, missing} x every list of 0..3 data files over {accepted, rejected by a field, rejected "
-        "by IsUnique, sharing keys with a sibling file, missing, directory} in every order x --until in {absent, -1, 0, "
+        "by IsUnique, sharing keys with a sibling file, missing, directory} in every order (and, under a CID whose DistinctCount end check fails on zero rows, lists over {accepted, rejected by the end check, rejected by IsUnique, missing, directory}) x --until in {absent, -1, 0, "
         "1, 2, -2, x}; in-process main() (both tiers) and `python -m cutplace.applications` as a subprocess for a sample "
         "(thorough). The exit code is compared with the model and with the verdicts cutplace.validate gives each file "
         "on a freshly loaded CID. Non-trivial: at least two data files. Distinct = distinct case.")
@@ -33,11 +33,15 @@ SPEC = {"format": "delimited", "header": 0,
         "fields": [{"name": "k", "empty": False, "type": "Text", "choices": [], "length": None},
                    {"name": "v", "empty": False, "type": "Choice", "choices": ["x", "y"], "length": None}],
         "checks": [{"kind": "unique", "cols": [0]}]}
+# the same CID with an end check that fails on zero rows: an unreadable file must still exit 3, not 1
+SPEC_LOWER = dict(SPEC, checks=[{"kind": "unique", "cols": [0]}, {"kind": "distinct", "col": 0, "op": ">=", "n": 2}])
+SPECS = {"plain": SPEC, "lower": SPEC_LOWER}
 FILES = {
     "accepted": [["a", "x"], ["b", "y"]],
     "field": [["a", "x"], ["b", "zz"], ["c", "x"]],
     "unique": [["a", "x"], ["b", "y"], ["a", "y"]],
     "sibling": [["b", "x"], ["a", "y"], ["c", "y"]],   # shares keys with the others but is fine on its own
+    "single": [["a", "x"]],                            # rejected by the end check of SPEC_LOWER only
     "missing": None,
     "dir": None,
 }
@@ -46,6 +50,7 @@ UNTILS = [None, -1, 0, 1, 2, -2, "x"]
 
 def make_case(inp):
     cid_kind, files, until = inp["cid"], inp["files"], inp["until"]
+    SPEC = SPECS[inp.get("spec", "plain")]
     with CLI.Workdir() as w:
         if cid_kind == "missing":
             cid_path = w.missing("nocid.csv")
@@ -93,6 +98,7 @@ def direct_oracle(inp, obs):
     """the exit code against the programmatic API: every file judged on a freshly loaded CID"""
     code = obs["exit"]
     until = inp["until"]
+    SPEC = SPECS[inp.get("spec", "plain")]
     if not isinstance(code, int):
         return "main() let %s escape" % code
     if code == 4:
@@ -119,7 +125,7 @@ def direct_oracle(inp, obs):
 
 
 def gen_inputs(tier, rnd):
-    kinds = list(FILES)
+    kinds = [k for k in FILES if k != "single"]
     lists = [[]] + [list(p) for n in (1, 2, 3) for p in itertools.product(kinds, repeat=n)]
     if tier == "quick":
         lists = [[]] + [list(p) for n in (1, 2) for p in itertools.product(kinds, repeat=n)] + [list(p) for p in rnd.sample(list(itertools.product(kinds, repeat=3)), 60)]
@@ -128,6 +134,12 @@ def gen_inputs(tier, rnd):
             if tier == "quick" and len(files) == 3 and until not in (None, 0, 2):
                 continue
             yield {"cid": "valid", "files": files, "until": until}
+    lower_lists = [list(p) for n in (1, 2) for p in itertools.product(["accepted", "single", "unique", "missing", "dir"], repeat=n)]
+    if tier != "quick":
+        lower_lists += [list(p) for p in itertools.product(["accepted", "single", "field", "missing", "dir"], repeat=3)]
+    for files in lower_lists:
+        for until in ((None, 1) if tier == "quick" else (None, 0, 1, 2)):
+            yield {"cid": "valid", "files": files, "until": until, "spec": "lower"}
     for cid in ("rejected", "missing"):
         for files in ([], ["accepted"], ["missing"], ["field", "accepted"]):
             for until in UNTILS:
